@@ -227,10 +227,21 @@ def handle (j : Json) : R Json := do
       | some r => writeOkB PVal.pyEq passed got r entry && writeOkB PVal.pyEq passed got r ret
       | none => false
     let tsj ← fld j "ts"
-    let tsOk ← if tsj.isNull then pure false else do
-      return FloatOps.le (← floatOfJson tsj) (← floatOfJson (← fld j "clock"))
+    let clock ← floatOfJson (← fld j "clock")
+    let tsOk : Bool ← if tsj.isNull then pure false else (fun ts => FloatOps.le ts clock) <$> floatOfJson tsj
     return Json.mkObj [("ok", Json.bool (driverOk && cacheOk && tsOk)),
       ("which", if !driverOk then "driver" else if !cacheOk then "cache" else if !tsOk then "timestamp" else Json.null)]
+  | "judge_read_error" =>
+    -- a driver raised an error of class `pycls` (error name `name`) with `text`: the client's read must hand back an
+    -- error object of that class, that name and that text, usable and formatting as `SECoPError.format` prescribes
+    let obs ← fld j "obs"
+    if obs.isNull then return Json.mkObj [("ok", Json.bool false)]
+    let (c, usable) ← parseContent tables obs
+    let want : ErrObj := ⟨← getStr (← fld j "pycls"), ← getStr (← fld j "name"), ← getStr (← fld j "text")⟩
+    let ok := match c with
+      | .error e => decide (e = want) && usable
+      | .value _ => false
+    return Json.mkObj [("ok", Json.bool ok)]
   | "rebuild" =>
     let e := makeSecopError tables (← optS (← fld j "cls")) (← getStr (← fld j "text"))
     return Json.mkObj [("pycls", jstr e.pycls), ("name", jstr e.name), ("arg", jstr e.arg), ("fmt", jstr (formatErr tables e))]
